@@ -1,6 +1,7 @@
 """C09: archive skip tables, size limits and the inventory of file-system call sites
 -> S2T/Gen/Archive.lean"""
 import ast
+import re
 
 from translate import HEADER, ast_literal_assign, chars, fresh_import, generator, lean_list, lean_str, parse
 
@@ -62,6 +63,63 @@ def _imports(rel):
     return sorted(mods)
 
 
+def _func(tree, name):
+    for node in ast.walk(tree):
+        if isinstance(node, (ast.FunctionDef, ast.AsyncFunctionDef)) and node.name == name:
+            return node
+    return None
+
+
+def _tar_kind_preds():
+    """sorted names of the `TarInfo.is…()` predicates called anywhere in `_extract_from_tar_optimized`
+    (the member-kind guard of the TAR loop), on whatever object"""
+    fn = _func(parse(AE), "_extract_from_tar_optimized")
+    if fn is None:
+        return None
+    out = set()
+    for node in ast.walk(fn):
+        if isinstance(node, ast.Call) and isinstance(node.func, ast.Attribute) and re.fullmatch(r"is[a-z]+", node.func.attr):
+            if node.func.attr not in ("isinstance", "isascii", "isdigit", "isalpha", "isspace", "isupper", "islower", "isalnum"):
+                out.add(node.func.attr)
+        # the type field compared directly (member.type == tarfile.LNKTYPE …) is a guard as well
+        if isinstance(node, ast.Attribute) and node.attr in ("type", "linkname", "linkpath"):
+            out.add("." + node.attr)
+    return sorted(out)
+
+
+def _wanted_keys():
+    """how `extractall(members=…)` decides which entries are requested, in util/sevenzip.py:
+    (keys, returns) — keys = source text of every expression that is put into / looked up in the set `wanted`
+    (`{KEY for member in members}`, `KEY in wanted`, `KEY not in wanted`), returns = source text of every
+    `return` expression of `SevenZipReader.list` / `SevenZipFile.list`"""
+    tree = parse(SZ)
+    keys, rets = set(), set()
+    for node in ast.walk(tree):
+        if isinstance(node, ast.Compare) and len(node.ops) == 1 and isinstance(node.ops[0], (ast.In, ast.NotIn)):
+            c = node.comparators[0]
+            if isinstance(c, ast.Name) and c.id == "wanted":
+                keys.add(ast.unparse(node.left))
+        if isinstance(node, (ast.Assign, ast.AnnAssign)):
+            tgts = node.targets if isinstance(node, ast.Assign) else [node.target]
+            if any(isinstance(t, ast.Name) and t.id == "wanted" for t in tgts) and node.value is not None:
+                for sub in ast.walk(node.value):
+                    if isinstance(sub, (ast.SetComp, ast.ListComp, ast.GeneratorExp)):
+                        keys.add(ast.unparse(sub.elt))
+                    elif isinstance(sub, ast.DictComp):
+                        keys.add(ast.unparse(sub.key))
+                    elif isinstance(sub, ast.Call) and not isinstance(sub.func, ast.Name):
+                        keys.add("call:" + ast.unparse(sub.func))
+                    elif isinstance(sub, ast.Call) and sub.func.id not in ("id", "set", "frozenset"):
+                        keys.add("call:" + sub.func.id)
+        if isinstance(node, ast.ClassDef):
+            for fn in node.body:
+                if isinstance(fn, ast.FunctionDef) and fn.name == "list":
+                    for sub in ast.walk(fn):
+                        if isinstance(sub, ast.Return) and sub.value is not None:
+                            rets.add(f"{node.name}.list: " + ast.unparse(sub.value))
+    return sorted(keys), sorted(rets)
+
+
 @generator("Archive")
 def gen_archive() -> str:
     ae = fresh_import("sharepoint2text.parsing.extractors.archive_extractor")
@@ -102,6 +160,18 @@ def gen_archive() -> str:
         L.append(f"def fsCalls{tag} : List (Str × Str) := "
                  + lean_list(f"({chars(f)}, {chars(c)})" for f, c in _fs_calls(rel)) + "\n")
         L.append(f"def imports{tag} : List String := " + lean_list((lean_str(m) for m in _imports(rel)), per_line=4) + "\n")
+    preds = _tar_kind_preds()
+    if preds is None:
+        notes.append("_extract_from_tar_optimized: function not found")
+        preds = []
+    L.append("/-- `TarInfo.is…()` predicates (and direct uses of `.type` / `.linkname`) in `_extract_from_tar_optimized`: "
+             "the member-kind guard of the TAR loop -/")
+    L.append("def tarKindPreds : List String := " + lean_list(lean_str(x) for x in preds) + "\n")
+    keys, rets = _wanted_keys()
+    L.append("/-- util/sevenzip.py: every expression put into / looked up in the set `wanted` of `extractall(members=…)` -/")
+    L.append("def wantedKeys : List String := " + lean_list(lean_str(x) for x in keys) + "\n")
+    L.append("/-- util/sevenzip.py: what the `list()` methods return (the objects `members=` is built from) -/")
+    L.append("def listReturns : List String := " + lean_list(lean_str(x) for x in rets) + "\n")
     L.append("/-- translator cross-check notes; must be empty -/")
     L.append("def notes : List String := " + lean_list(lean_str(n) for n in notes) + "\n")
     L.append("end S2T.Gen.Archive\n")
